@@ -151,21 +151,25 @@ def execute(case):
     jds_arg = [tuple(j) for j in jds_in]
     N = len(jds_in)
     calls = []
+    style = case.get("style", 0)      # container types the user callbacks return
+    if case["gen"] == "network":
+        style = style % 2             # the network conversion keys dictionaries by edge: inner pairs must be hashable tuples
     builds, names, motifs_rec = [], [], []
     for j, (orbits, shape, bare) in enumerate(cfg["motifs"]):
         size, pairs = get_shape(shape)
         lib = lib_callback(shape) if isinstance(shape, str) and (not cfg["custom"] or not bare) else None
 
-        def build(vs, j=j, pairs=pairs, bare=bare, lib=lib):
+        def build(vs, j=j, pairs=pairs, bare=bare, lib=lib, style=style):
             vs = list(vs)
             if lib is not None:
                 ret = lib(list(vs))
             elif bare:
                 ret = (vs[0], vs[1])
             else:
-                ret = tuple((vs[a], vs[b]) for a, b in pairs)
-                if not cfg["custom"]:
-                    ret = list(ret)
+                # user callbacks may return tuples or lists of tuples or lists: all are "edges as pairs"
+                inner = list if style in (2, 3) else tuple
+                outer = list if style in (1, 3) or not cfg["custom"] else tuple
+                ret = outer(inner((vs[a], vs[b])) for a, b in pairs)
             calls.append({"m": j + 1, "verts": [int(v) for v in vs], "ret": _norm_edges(ret)})
             return ret
         builds.append(build)
